@@ -9,6 +9,8 @@ git -C /repo worktree add -q --detach "$WT" HEAD || exit 2
 trap 'git -C /repo worktree remove --force "$WT" >/dev/null 2>&1' EXIT
 for d in seeded/C*/; do
   s=$(basename $d); p=${s:0:3}
+  # SEEDALL_FROM=<seed>: resume an interrupted run at that seed (directory order)
+  if [ -n "${SEEDALL_FROM:-}" ] && [[ "$s" < "$SEEDALL_FROM" ]]; then continue; fi
   if [ "${SEEDALL_IN_REPO:-0}" = 1 ]; then
     git -C /repo apply /verif/$d/patch.diff || { echo "$s: PATCH DOES NOT APPLY"; continue; }
     ./check $p quick > "$WT.log" 2>&1; rc=$?
